@@ -28,6 +28,18 @@ func execClosuresOf(cx *Ctx, rule string) map[*ssa.Function]bool {
 			if cc != nil && !cc.IsInvoke() && cc.StaticCallee() == nil && sameField(fieldOf(cc.Value), ex) && len(cc.Args) == 1 {
 				if cl := closureOf(cc.Args[0]); cl != nil {
 					out[cl] = true
+					// a method value (job.run): the task is the method behind the bound-method wrapper
+					if cl.Synthetic != "" {
+						allInstrs(cl, func(x ssa.Instruction) {
+							if c := calleeOf(x); c != nil {
+								out[origin(c)] = true
+							}
+						})
+					}
+				}
+				// a task built by a constructor / held in a variable: every function value that can flow here
+				for _, f := range funcValuesOf(cc.Args[0], 0, map[ssa.Value]bool{}, nil) {
+					out[origin(f)] = true
 				}
 			}
 		})
@@ -487,6 +499,7 @@ func init() {
 	alsoUnder(ruleC10Distribute, "C09")
 	alsoUnder(ruleC05RunTask, "C14")
 	alsoUnder(ruleC09Install, "C09")
+	alsoUnder(ruleC13NoDrop, "C05")
 }
 
 func ruleC12SatOnly(cx *Ctx) { ruleC12Hooks(cx) }
@@ -764,5 +777,136 @@ func ruleC09Install(cx *Ctx) {
 	}
 	if n == 0 {
 		cx.R.Undecided(rule, funcName(inst), "install site", cx.P.Pos(inst.Pos()), "no table write takes the record's value")
+	}
+}
+
+func init() {
+	alsoUnder(ruleC13SweepTime, "C13", "C07")
+}
+
+// ---- C13.sweeptime ----
+// The timer wheel is advanced to a reading of the cache's own clock: deadlines are dated by Clock.NowNano, whose origin
+// is arbitrary by contract, so a sweep at any other time base (a ticker's wall clock, a cached start time) expires
+// entries long before - or never after - their deadline.
+func ruleC13SweepTime(cx *Ctx) {
+	const rule = "C13.sweeptime"
+	cx.R.Rule(rule, 1, "the time argument of every Variable.DeleteExpired call is, on every path and through every parameter it travels by, the result of NowNano on the cache's clock (a sentinel constant that the receiving function tests for and replaces by such a reading is allowed)")
+	de := cx.need(rule, expPkg, "Variable", "DeleteExpired")
+	clk := cx.needField(rule, "", "cache", "clock")
+	if de == nil || clk == nil {
+		return
+	}
+	var resolve func(v ssa.Value, depth int, seen map[ssa.Value]bool) string
+	resolve = func(v ssa.Value, depth int, seen map[ssa.Value]bool) string {
+		if seen[v] {
+			return ""
+		}
+		seen[v] = true
+		if depth > 6 {
+			return "value travels too far to follow"
+		}
+		switch x := v.(type) {
+		case *ssa.Call:
+			if invokeName(x) == "NowNano" && sameField(fieldOf(x.Call.Value), clk) {
+				return ""
+			}
+			if c := calleeOf(x); c != nil && c.Name() == "NowNano" {
+				if len(x.Call.Args) > 0 && sameField(fieldOf(x.Call.Args[0]), clk) {
+					return ""
+				}
+			}
+			return "the sweep time is " + x.String() + ", not a reading of the cache's clock"
+		case *ssa.Phi:
+			for _, e := range x.Edges {
+				if w := resolve(e, depth+1, seen); w != "" {
+					return w
+				}
+			}
+			return ""
+		case *ssa.Convert:
+			return resolve(x.X, depth+1, seen)
+		case *ssa.ChangeType:
+			return resolve(x.X, depth+1, seen)
+		case *ssa.UnOp:
+			if a, ok := x.X.(*ssa.Alloc); ok {
+				for _, r := range *a.Referrers() {
+					if st, ok := r.(*ssa.Store); ok && st.Addr == ssa.Value(a) {
+						if w := resolve(st.Val, depth+1, seen); w != "" {
+							return w
+						}
+					}
+				}
+				return ""
+			}
+		case *ssa.Const:
+			return "the sweep time is the constant " + x.String()
+		case *ssa.Parameter:
+			fn := x.Parent()
+			idx := paramIndexOf(x)
+			// a sentinel the function tests its parameter against
+			sentinels := map[string]bool{}
+			allInstrs(fn, func(in ssa.Instruction) {
+				if b, ok := in.(*ssa.BinOp); ok {
+					if b.X == ssa.Value(x) {
+						if k, isK := b.Y.(*ssa.Const); isK && k.Value != nil {
+							sentinels[k.Value.ExactString()] = true
+						}
+					}
+					if b.Y == ssa.Value(x) {
+						if k, isK := b.X.(*ssa.Const); isK && k.Value != nil {
+							sentinels[k.Value.ExactString()] = true
+						}
+					}
+				}
+			})
+			sites := 0
+			for _, g := range cx.P.FuncsOfPkg("") {
+				var bad string
+				allInstrs(g, func(in ssa.Instruction) {
+					c := calleeOf(in)
+					if c == nil || origin(c) != origin(fn) || bad != "" {
+						return
+					}
+					sites++
+					args := callCommon(in).Args
+					if idx < 0 || idx >= len(args) {
+						bad = "argument not found at " + cx.P.where(in)
+						return
+					}
+					if k, isK := args[idx].(*ssa.Const); isK && k.Value != nil && sentinels[k.Value.ExactString()] {
+						return
+					}
+					if w := resolve(args[idx], depth+1, seen); w != "" {
+						bad = w + " (handed in at " + cx.P.where(in) + ")"
+					}
+				})
+				if bad != "" {
+					return bad
+				}
+			}
+			if sites == 0 {
+				return "the sweep time is parameter " + x.Name() + " of " + funcName(fn) + ", which nothing in the package calls"
+			}
+			return ""
+		}
+		return "the sweep time is " + v.String() + ", not a reading of the cache's clock"
+	}
+	n := 0
+	for _, fn := range cx.P.FuncsOfPkg("") {
+		allInstrs(fn, func(in ssa.Instruction) {
+			if !isCallTo(in, de) {
+				return
+			}
+			n++
+			args := callArgs(in)
+			if len(args) == 0 {
+				return
+			}
+			w := resolve(args[0], 0, map[ssa.Value]bool{})
+			cx.R.Check(w == "", rule, funcName(fn), "sweep at the cache clock's time", cx.P.where(in), "the wheel is advanced to Clock.NowNano of the cache "+w)
+		})
+	}
+	if n == 0 {
+		cx.R.Undecided(rule, "cache", "DeleteExpired call", "-", "no call of Variable.DeleteExpired in the cache")
 	}
 }
